@@ -166,10 +166,15 @@ def ncf2uamiv(ncffile, outpath):
             tincr = ncffile.TSTEP / 10000
         else:
             tincr = np.diff(time_s)[0]
-        date_e = date_s.copy()
-        time_e = time_s.copy() + tincr
-        date_e += (time_e // 24).astype('i')
-        time_e -= (time_e // 24) * 24
+        # begin + increment with calendar arithmetic (day, leap-day and
+        # year roll-over)
+        from datetime import datetime, timedelta
+        ends = [datetime.strptime('%07d' % d, '%Y%j') +
+                timedelta(hours=float(t) + float(tincr))
+                for d, t in zip(ncffile.variables['TFLAG'][:, 0, 0], time_s)]
+        date_e = np.array([int(e.strftime('%Y%j')) for e in ends])
+        date_e = date_e % (date_e // 100000 * 100000)
+        time_e = np.array([e.hour + e.minute / 60. for e in ends], dtype='>f')
     time_hdr['ibdate'] = date_s
     time_hdr['btime'] = time_s
     time_hdr['iedate'] = date_e
